@@ -11,11 +11,11 @@ type caseFile = hx.CaseFile
 
 type gen struct{ *hx.Gen }
 
-func newGen(seed int64) *gen        { return &gen{hx.NewGen(seed)} }
-func (g *gen) intn(n int) int       { return g.Intn(n) }
-func (g *gen) chance(p float64) bool { return g.Chance(p) }
+func newGen(seed int64) *gen           { return &gen{hx.NewGen(seed)} }
+func (g *gen) intn(n int) int          { return g.Intn(n) }
+func (g *gen) chance(p float64) bool   { return g.Chance(p) }
 func (g *gen) pick(xs []string) string { return g.Pick(xs) }
-func (g *gen) bytes(n int) []byte   { return g.Bytes(n) }
+func (g *gen) bytes(n int) []byte      { return g.Bytes(n) }
 
 var (
 	coqHx      = hx.Hx
